@@ -14,7 +14,7 @@
 //                     program; any other failing op stops it (later ops answer `R skipped`), which is what
 //                     serialize_to does at the first failing node.
 // Every op is answered with one `R ...` line: builder `R <ok|err X|pre> cur=<n|-> fwd=<n,..> bwd=<n,..>`, asm `R <ok|err X|skipped>`.
-// Operand tokens: `-` none, `L<n>` label, `M<n>` [label], `I<int64>` immediate, `w0:w1:w2:w3` raw words (hex).
+// Operand tokens: `-` none, `L<n>` label, `M<n>` [label], `N<n>` dword [label+4] (x86), `I<int64>` immediate, `w0:w1:w2:w3` raw words (hex).
 // `menu <arch>` prints `M <name> <instid> <tokens>` lines for the generator (built with the public operand constructors).
 #include <asmjit/core.h>
 #include <asmjit/x86.h>
@@ -23,8 +23,14 @@
 #include <memory>
 #include <algorithm>
 #include "vh.h"
+#include <csignal>
+#include <unistd.h>
 
 using namespace asmjit;
+
+// a corrupted node list can make the real code loop for ever: every program gets 20 s, then the harness gives up
+// (the output so far is flushed so that the caller can name the program)
+static void on_alarm(int) { fflush(stdout); fputs("TIMEOUT: a program ran for more than 20 s\n", stderr); _exit(97); }
 
 static std::string err_str(Error e) {
   if (e == Error::kOk) return "ok";
@@ -55,6 +61,14 @@ static Operand_ label_mem(uint32_t id) {
   return o;
 }
 
+// `N<id>` = dword [label + 4] (x86 only): a label reference with a displacement
+static Operand_ label_mem4(uint32_t id) {
+  Label l; l.set_id(id);
+  Operand_ o;
+  x86::Mem m = x86::dword_ptr(l, 4); o.copy_from(m);
+  return o;
+}
+
 static std::string op_tok(const Operand_& o) {
   if (o._signature.bits() == 0 && o._base_id == 0 && o._data[0] == 0 && o._data[1] == 0) return "-";
   if (o.is_label()) {
@@ -67,6 +81,7 @@ static std::string op_tok(const Operand_& o) {
   }
   if (o.is_mem() && o.as<BaseMem>().has_base_label()) {
     if (same_op(o, label_mem(o._base_id))) return "M" + std::to_string(o._base_id);
+    if (g_arch != Arch::kAArch64 && same_op(o, label_mem4(o._base_id))) return "N" + std::to_string(o._base_id);
   }
   return vh::to_hex(o._signature.bits()) + ":" + vh::to_hex(o._base_id) + ":" + vh::to_hex(o._data[0]) + ":" + vh::to_hex(o._data[1]);
 }
@@ -82,6 +97,7 @@ static bool parse_op(const std::string& s, Operand_& o) {
   if (s == "-") return true;
   uint64_t v;
   if (s[0] == 'L') { if (!vh::parse_u64(s.substr(1), v)) return false; Label l; l.set_id(uint32_t(v)); o.copy_from(l); return true; }
+  if (s[0] == 'N') { if (!vh::parse_u64(s.substr(1), v)) return false; o = label_mem4(uint32_t(v)); return true; }
   if (s[0] == 'M') { if (!vh::parse_u64(s.substr(1), v)) return false; o = label_mem(uint32_t(v)); return true; }
   if (s[0] == 'I') { int64_t i; if (!vh::parse_i64(s.substr(1), i)) return false; Imm im(i); o.copy_from(im); return true; }
   uint32_t w[4]; size_t p = 0;
@@ -444,6 +460,8 @@ static void step(const std::string& line, std::vector<std::string>& out) {
   if (w[0] == "menu" && w.size() == 2) { menu(w[1], out); return; }
   if (w[0] == "begin" && w.size() == 4) {
     P.reset(new Prog());
+    signal(SIGALRM, on_alarm);
+    alarm(20);
     uint64_t enc = 0; vh::parse_hex(w[3], enc);
     Arch arch = w[1] == "x86" ? Arch::kX86 : w[1] == "a64" ? Arch::kAArch64 : Arch::kX64;
     g_arch = arch;
@@ -469,7 +487,8 @@ static void step(const std::string& line, std::vector<std::string>& out) {
       dump_code(out);
       return;
     }
-    if (P->stopped) { out.push_back("R skipped"); return; }
+    // label / section creation is not an emitter call that serialize_to replays: it happens whatever was refused before
+    if (P->stopped && w[0] != "newlabel" && w[0] != "newsection") { out.push_back("R skipped"); return; }
     if (is_edit(w[0])) { out.push_back("R pre"); return; }
     bool pre;
     std::string r = do_call(P->em.get(), w, pre);
@@ -485,6 +504,10 @@ static void step(const std::string& line, std::vector<std::string>& out) {
 
   // builder / compiler
   if (w[0] == "finalize") {
+    // a corrupted (cyclic) node list would make serialize_to run for ever: report it instead
+    size_t guard = 0;
+    for (BaseNode* n = P->bb->first_node(); n && guard <= 100000; n = n->next()) guard++;
+    if (guard > 100000) { out.push_back("C end CYCLE"); out.push_back("F CYCLE"); return; }
     Recorder rec;
     Error e1 = Error::kOk;
     e1 = P->bb->serialize_to(&rec);
